@@ -9,7 +9,8 @@ import io
 
 from vmc import core, bfs, enum
 from paramiko.file import BufferedFile
-from paramiko.channel import ChannelFile
+from paramiko.channel import Channel, ChannelFile
+from paramiko.message import Message
 
 PID = "C42"
 META = {
@@ -120,6 +121,128 @@ class StubChannel:
             data = data[n:]
 
 
+# ---- a real Channel between the file object and the scripted stream ---------------------------------------
+MAKEFILES = ["Channel.makefile", "Channel.makefile_stderr", "Channel.makefile_stdin"]
+CPOL = ["all", "one", "two"]       # send window the peer keeps open: unlimited / 1 byte / 2 bytes per send
+MSG_WINDOW_ADJUST, MSG_DATA, MSG_EXTENDED_DATA, MSG_EOF = 93, 94, 95, 96
+
+
+class Peer:
+    """Stands where the Transport stands for a real paramiko.Channel: records, in order, what the channel sends
+    to the peer.  `data` = bytes that arrived on the stream the file object wraps (CHANNEL_DATA for makefile /
+    makefile_stdin, CHANNEL_EXTENDED_DATA type 1 for makefile_stderr), `wrong` = bytes that arrived on the other
+    stream.  After every data message the peer re-opens the send window according to the policy, so sends are
+    partial ('one', 'two') without ever blocking."""
+    server_object = None
+    active = True
+
+    def __init__(self, policy, stream):
+        self.policy, self.stream = policy, stream
+        self.data = bytearray()
+        self.wrong = bytearray()
+        self.calls = 0
+        self.eof = False
+        self.after_eof = False
+        self.chan = None
+
+    def window(self):
+        return {"all": 1 << 30, "one": 1, "two": 2}[self.policy]
+
+    def get_log_channel(self):
+        return "paramiko.c42"
+
+    def _sanitize_packet_size(self, n):
+        return n
+
+    def _send_user_message(self, m):
+        b = m.asbytes()
+        t, m = b[0], Message(b[1:])
+        m.get_int()
+        if t == MSG_DATA or t == MSG_EXTENDED_DATA:
+            kind = "data"
+            if t == MSG_EXTENDED_DATA:
+                kind = "ext" if m.get_int() == 1 else "ext-other"
+            d = m.get_binary()
+            self.calls += 1
+            if self.eof:
+                self.after_eof = True
+            (self.data if kind == self.stream else self.wrong).extend(d)
+            if self.policy != "all":
+                g = Message()
+                g.add_int(len(d))
+                g.rewind()
+                self.chan._window_adjust(g)
+        elif t == MSG_EOF:
+            self.eof = True
+
+
+class FedChannel(Channel):
+    """paramiko.Channel whose incoming side is fed lazily: when recv()/recv_stderr() finds the buffer of its stream
+    empty, the next chunk of the scripted stream arrives (through _feed / _feed_extended) or, at the end, the
+    peer's EOF (_handle_eof) - so a call never returns more than asked or than the rest of the current chunk."""
+
+    def recv(self, n):
+        self.c42src.pump()
+        return Channel.recv(self, n)
+
+    def recv_stderr(self, n):
+        self.c42src.pump()
+        return Channel.recv_stderr(self, n)
+
+
+class ChanSource:
+    def __init__(self, chan, data, chunks, stream):
+        self.chan, self.data, self.chunks, self.stream = chan, data, chunks, stream
+        self.buf = chan.in_buffer if stream == "data" else chan.in_stderr_buffer
+        self.fed = 0
+        self.ci = 0
+        self.calls = 0
+        self.eof = False
+
+    @property
+    def left(self):
+        return len(self.buf)
+
+    @property
+    def pos(self):
+        return self.fed - len(self.buf)
+
+    def pump(self):
+        self.calls += 1
+        if len(self.buf) or self.eof:
+            return
+        if self.ci >= len(self.chunks):
+            self.eof = True
+            self.chan._handle_eof(None)
+            return
+        chunk = self.data[self.fed:self.fed + self.chunks[self.ci]]
+        self.fed += len(chunk)
+        self.ci += 1
+        if self.stream == "data":
+            self.chan._feed(chunk)
+        else:
+            m = Message()
+            m.add_int(1)
+            m.add_string(chunk)
+            m.rewind()
+            self.chan._feed_extended(m)
+
+
+def real_channel_file(cls, stream, chunks, policy, mode, bufsize):
+    kind = "ext" if cls == "Channel.makefile_stderr" else "data"
+    peer = Peer(policy, kind)
+    chan = FedChannel(1)
+    peer.chan = chan
+    chan._set_transport(peer)
+    chan._set_window(1 << 21, 1 << 15)
+    chan._set_remote_channel(2, peer.window(), 1 << 15)
+    chan.settimeout(0.0)             # guard: a call that would block raises socket.timeout instead of hanging
+    src = ChanSource(chan, stream, chunks, kind)
+    chan.c42src = src
+    f = getattr(chan, cls.split(".")[1])(mode, bufsize)
+    return src, peer, f
+
+
 # ---- states --------------------------------------------------------------------------------------------
 class St:
     pass
@@ -134,12 +257,15 @@ def make_state(cfg):
     cls, stream, chunks, eof, policy, mode, bufsize = cfg
     st = St()
     st.cfg = cfg
-    st.src = Source(stream, chunks, eof)
-    st.sink = Sink(policy)
-    if cls == "BufferedFile":
-        st.f = ScriptedFile(st.src, st.sink, mode, bufsize)
+    if cls in MAKEFILES:
+        st.src, st.sink, st.f = real_channel_file(cls, stream, chunks, policy, mode, bufsize)
     else:
-        st.f = ChannelFile(StubChannel(st.src, st.sink), mode, bufsize)
+        st.src = Source(stream, chunks, eof)
+        st.sink = Sink(policy)
+        if cls == "BufferedFile":
+            st.f = ScriptedFile(st.src, st.sink, mode, bufsize)
+        else:
+            st.f = ChannelFile(StubChannel(st.src, st.sink), mode, bufsize)
     st.universal = "U" in mode
     st.text = "b" not in mode
     st.ref = io.BytesIO(stream)       # reference reader (non-universal modes)
@@ -239,7 +365,10 @@ def apply(st, op, last):
     if last and kind in ("write", "flush", "close"):
         got = bytes(st.sink.data)
         want = bytes(st.written)
-        if not want.startswith(got):
+        if getattr(st.sink, "wrong", None) or getattr(st.sink, "after_eof", False):
+            probs.append(("written-bytes-on-other-channel-stream-or-after-eof:after-%s" % kind,
+                          {"other_stream_got": show(bytes(st.sink.wrong)), "written": show(want)}))
+        elif not want.startswith(got):
             probs.append(("written-bytes-not-a-prefix:after-%s" % kind, {"stream_got": show(got), "written": show(want)}))
         elif kind in ("flush", "close") and got != want:
             probs.append(("written-bytes-incomplete:after-%s" % kind, {"stream_got": show(got), "written": show(want)}))
@@ -269,7 +398,7 @@ def snapshot(st):
     f = st.f
     return (st.src.pos, st.src.ci, st.src.left, bytes(f._rbuffer), f._at_trailing_cr, f._closed,
             f._wbuffer.getvalue(), bytes(st.sink.data), st.sink.calls % 2, bytes(st.written),
-            st.ref.tell(), st.u_pure, st.u_index)
+            st.ref.tell(), st.u_pure, st.u_index, getattr(st.sink, "eof", False))
 
 
 def drain(st):
@@ -375,6 +504,8 @@ def read_configs(tier):
                     for eof in EOF_KINDS:
                         yield ("BufferedFile", s, ch, eof, "all", mode, b)
                     yield ("ChannelFile", s, ch, "empty", "all", mode, b)
+                    for cls in MAKEFILES:
+                        yield (cls, s, ch, "empty", "all", mode, b)
 
 
 def write_configs(tier):
@@ -383,6 +514,11 @@ def write_configs(tier):
             for mode in ("wb", "w"):
                 yield ("BufferedFile", b"", (), "empty", pol, mode, b)
                 yield ("ChannelFile", b"", (), "empty", pol, mode, b)
+    for cls in MAKEFILES:
+        for pol in CPOL:
+            for b in [-1, 0, 1, 2, 3, 8192]:
+                for mode in ("wb", "w"):
+                    yield (cls, b"", (), "empty", pol, mode, b)
 
 
 def mixed_configs(tier):
@@ -394,6 +530,8 @@ def mixed_configs(tier):
             for b in [0, 1, 2]:
                 for pol in ("all", "one"):
                     yield ("BufferedFile", s, ch, "empty", pol, "r+b", b)
+                    for cls in MAKEFILES:
+                        yield (cls, s, ch, "empty", pol, "r+b", b)
 
 
 MIXED_OPS = [("read", 1), ("read", None), ("readline", None), ("readline", 1), ("next",),
